@@ -606,6 +606,10 @@ def confirm_disagreements(ctx: Ctx, limit=12):
 
 
 def run(ctx: Ctx):
+    from . import util_lie as _UL
+    def _reads(name):
+        return {"Exp": lambda o: o.Exp().tensor(), "matrix": lambda o: o.matrix()}
+    _UL.persistent_probe(ctx, _reads, algebra=True)
     lines, metas = [], []
     run_corpus(ctx, lines, metas)
     run_grid(ctx, lines, metas, reps_per_cell=ctx.pick(1, 10))
